@@ -27,7 +27,15 @@ def unescape(string):
 
 def _replace_charref(match):
     ref = match.group(1)
-    if ref[0] == '#' or ref in html.entities.html5:
+    if ref[0] == '#':
+        # a numeric reference stands for the code point it names; only U+0000 and invalid code
+        # points become U+FFFD. (`html.unescape()` follows the HTML5 parsing rules instead, which
+        # drop some code points and remap others to Windows-1252.)
+        num = int(ref[2:-1], 16) if ref[1] in 'xX' else int(ref[1:-1])
+        if num == 0 or 0xD800 <= num <= 0xDFFF or num > 0x10FFFF:
+            return '\uFFFD'
+        return chr(num)
+    if ref in html.entities.html5:
         return html.unescape(match.group(0))
     return match.group(0)
 
